@@ -20,6 +20,7 @@ NOT_DECIDED = ('numerical equality with the Cox-de Boor sum; correctness of span
                '(floating point in linspace); the floating-point rounding of the sums themselves (the exact rules decide the algebra, not the last bit).')
 TECHNIQUE = 'stride rule in polynomial normal form, axis-tag dataflow, key-set agreement, per-point map extraction'
 DECIDES += (' [ABSTRACT INTERPRETATION, exact] EVX: evaluate() of all six evaluator classes, interpreted with symbolic basis tables and control points and recorder helpers, returns for every sample of the grid exactly the tensor-product sum (over the weight sum for rational shapes), listed u-major, every helper asked with the data of its own direction; A36S / A34S: the zeroth and higher derivatives of both evaluator families are the exact sums of A3.2 / A3.4 / A3.6 / A3.8 (spelling-independent: LY1, BP1, RP1, GO1 on the evaluators only corroborate). FD2: no sample-size getter truncates the float quotient 1 / delta.')
+DECIDES += (' DG2: the domain getter returns (knot[degree], knot[-(degree+1)]) per direction; DC9: a deep copy (what every operation without inplace evaluates) shares nothing with its source; RG2: on an un-normalised shape every parameter of every entry point reaches the evaluator.')
 
 EVAL_CLASSES = ['CurveEvaluator', 'CurveEvaluatorRational', 'CurveEvaluator2', 'SurfaceEvaluator', 'SurfaceEvaluatorRational', 'SurfaceEvaluator2',
                 'VolumeEvaluator', 'VolumeEvaluatorRational']
